@@ -268,6 +268,20 @@ func init() {
 					})
 					continue
 				}
+				if ev[0] == 'G' && ops.acceptGiveUp != nil {
+					// completed before the history goes on: "announced and given up" is the state the next event meets (the other
+					// order is the caller's own blocking dial racing with the announcement, see Instances)
+					side, id := ev[1], uint32(atoi(ev[2:]))
+					fin := make(chan struct{})
+					x.Go(dom(side), func() {
+						defer close(fin)
+						if err := ops.acceptGiveUp(side, id); err != nil {
+							x.Put("musterr:e"+fmt.Sprint(n)+":"+ev, err.Error())
+						}
+					})
+					<-fin
+					continue
+				}
 				if strings.HasSuffix(ev, "!") { // "<event>!": this call belongs to a matched pair inside the window and must succeed
 					issue(fmt.Sprintf("e%d:%s", n, ev), strings.TrimSuffix(ev, "!"), true)
 					continue
